@@ -128,7 +128,10 @@ def scenarios(ctx):
     scs.append(scenario(word, "silence", False, plan={"on_message": "rr", "on_data": "or", "on_ping": "r"}))
     # re-established connections (reconnect on): on_reconnect when given, otherwise on_open again, first on EVERY connection
     from props import c15
-    for seq in (("Ee", "Ee"), ("Er", "R", "Ee"), ("Ee", "J", "Er", "Ee"), ("R", "Ee", "Ee"), ("Ex", "Ee")):
+    # (… also after a connection that was lost BETWEEN THE FRAGMENTS of a message: the next connection starts from a fresh
+    #  parser and reassembly state, its messages are delivered like on a first connection)
+    for seq in (("Ee", "Ee"), ("Er", "R", "Ee"), ("Ee", "J", "Er", "Ee"), ("R", "Ee", "Ee"), ("Ex", "Ee"),
+                ("Eh", "Ee"), ("Ehr", "Ee"), ("Eh", "R", "Ehr", "Ee")):
         for drop in (None, "on_reconnect", "on_open", "on_error"):
             for ssl in (False, True):
                 mask = appsim.ALL if drop is None else appsim.ALL & ~(1 << CBS.index(drop))
